@@ -164,12 +164,26 @@ impl StringHeap {
         R: Read + Seek,
         T: for<'a> BinRead<Args<'a> = (&'a StringHeap,)>,
     {
-        let old_pos = reader.stream_position().unwrap();
-        reader
-            .seek(SeekFrom::Start((self.pos as i32 + offset) as u64))
-            .unwrap();
-        let obj = reader.read_le_args::<T>((self,)).unwrap();
-        reader.seek(SeekFrom::Start(old_pos)).unwrap();
+        self.try_read_args(reader, offset).unwrap()
+    }
+
+    /// Like `read_args`, but an offset that points outside of the data (or at something that cannot be read) is an error.
+    pub fn try_read_args<R, T>(&self, reader: &mut R, offset: i32) -> binrw::BinResult<T>
+    where
+        R: Read + Seek,
+        T: for<'a> BinRead<Args<'a> = (&'a StringHeap,)>,
+    {
+        let old_pos = reader.stream_position()?;
+        let pos = self
+            .pos
+            .checked_add_signed(offset as i64)
+            .ok_or_else(|| binrw::Error::AssertFail {
+                pos: old_pos,
+                message: "offset points before the start of the data".to_string(),
+            })?;
+        reader.seek(SeekFrom::Start(pos))?;
+        let obj = reader.read_le_args::<T>((self,));
+        reader.seek(SeekFrom::Start(old_pos))?;
         obj
     }
 
@@ -515,7 +529,7 @@ struct LayerHeader {
     #[br(temp)]
     #[bw(calc = data_heap.get_free_offset_args(&layer_set_referenced_list))]
     pub layer_set_referenced_list_offset: i32,
-    #[br(calc = data_heap.read_args(r, layer_set_referenced_list_offset))]
+    #[br(try_calc = data_heap.try_read_args(r, layer_set_referenced_list_offset))]
     #[bw(ignore)]
     pub layer_set_referenced_list: LayerSetReferencedList,
     pub festival_id: u16,
